@@ -240,6 +240,38 @@ func init() {
 		}
 		return nil
 	}
+	// sort.Slice / sort.SliceStable go through reflectlite.Swapper: modelled as a stable insertion sort over the
+	// slice's cells that calls the less closure (a symbolic answer forks like any other branch)
+	sortSlice := func(in *Interp, fr *Frame, args []Value, call *ssa.CallCommon) Value {
+		ifc, ok := args[0].(Iface)
+		if !ok || ifc.t == nil {
+			panic(in.rtPanic("sort.Slice: nil or non-slice argument"))
+		}
+		st, isSlice := ifc.t.Underlying().(*types.Slice)
+		sl, isVal := ifc.v.(Slice)
+		if !isSlice || !isVal {
+			panic(inconclusive("sort.Slice on a non-slice value"))
+		}
+		stride := in.ti.of(st.Elem()).n
+		less := func(i, j int) bool {
+			r := in.callValue(args[1], []Value{mkBV(64, uint64(i)), mkBV(64, uint64(j))}, fr, nil)
+			return in.branch(r.(*Term))
+		}
+		if sl.len > 1 {
+			in.writeCheck(sl.obj)
+		}
+		for i := 1; i < sl.len; i++ {
+			for j := i; j > 0 && less(j, j-1); j-- {
+				a, b := sl.off+j*stride, sl.off+(j-1)*stride
+				for k := 0; k < stride; k++ {
+					sl.obj.cells[a+k], sl.obj.cells[b+k] = sl.obj.cells[b+k], sl.obj.cells[a+k]
+				}
+			}
+		}
+		return nil
+	}
+	m["sort.Slice"] = sortSlice
+	m["sort.SliceStable"] = sortSlice
 	m["(*sync.Mutex).TryLock"] = func(in *Interp, fr *Frame, args []Value, call *ssa.CallCommon) Value { return tTrue }
 	m["internal/abi.NoEscape"] = func(in *Interp, fr *Frame, args []Value, call *ssa.CallCommon) Value { return args[0] }
 	m["internal/abi.Escape"] = func(in *Interp, fr *Frame, args []Value, call *ssa.CallCommon) Value { return args[0] }
